@@ -581,7 +581,7 @@ func runSearch(args []string) {
 	props := fs.String("props", "C01", "comma list of properties to decide")
 	report := fs.String("report", "report.json", "")
 	fails := fs.String("fail", "fail.ndjson", "")
-	ladder := fs.String("ladder", "", "auxiliary length ladder: q (21 kB on 1/16 of the patterns) | t (21 kB, 70 kB on 1/8, 2.3 MB on 1/64)")
+	ladder := fs.String("ladder", "", "auxiliary length ladder: q (34 kB on 1/16 of the patterns) | t (34 kB, 70 kB on 1/8, 2.3 MB on 1/64; anchored patterns: 2.3 MB and 9 MB)")
 	longMax := fs.Int("long", 0, "auxiliary: also compare with regexp on pumped haystacks up to this many bytes (0 = off)")
 	fs.Parse(args)
 
@@ -842,17 +842,21 @@ func runSearch(args []string) {
 		if *ladder != "" {
 			// Length ladder: the thresholds inside the engines (visited-table budgets of the backtrackers, DFA cache sizes, the
 			// 4 KiB / 64 KiB windows) sit far beyond what TLC can enumerate.  Content-selected patterns, pumped members of a
-			// 2-symbol haystack at 21 kB / 70 kB / 2.3 MB, a reduced API set, regexp as the arbiter.  A pattern that is already
+			// 2-symbol haystack at 34 kB / 70 kB / 2.3 MB / 9 MB, a reduced API set, regexp as the arbiter.  A pattern that is already
 			// slower than 1.5 us per byte on 4200 bytes is left to C05 (counted).
 			ph := contentHash([]byte(pat))
 			sel := ph%16 == 0 || (*ladder == "t" && ph%8 == 0)
 			if sel {
 				var sizes []int
-				sizes = append(sizes, 21000)
+				sizes = append(sizes, 34000) // above 128 K entries / 4 states: beyond the small backtracker for every pattern
 				if *ladder == "t" {
 					sizes = append(sizes, 70000)
-					if ph%64 == 0 {
+					anchored := rec.Re != nil && rec.Re.Op == "cat" && rec.Re.A != nil && rec.Re.A.Op == "look" && rec.Re.A.K == "bot"
+					if ph%64 == 0 || anchored {
 						sizes = append(sizes, 2300000)
+					}
+					if anchored {
+						sizes = append(sizes, 9000000) // above 32 M entries / 4 states: beyond the large backtracker (anchored searches are cheap)
 					}
 				}
 				nh := 0
